@@ -179,3 +179,59 @@ func runPQConc(rep *Report) {
 		}
 	}
 }
+
+func init() { checks["pqlayout"] = runPQLayout }
+
+func runPQLayout(rep *Report) {
+	tw, done := traceWriter()
+	defer done()
+	for i := 0; i < *fN; i++ {
+		if !startProgram(i) {
+			continue
+		}
+		r := &engine.RNG{S: progSeed(*fSeed, i)}
+		P := []int{1024, 4096, 2048}[r.Intn(3)]
+		S := P - 28
+		cnt := 1 + r.Intn(30)
+		var sizes []int
+		for k := 0; k < cnt; k++ {
+			var sz int
+			switch r.Intn(8) {
+			case 0:
+				sz = 1 + r.Intn(8)
+			case 1:
+				sz = S - 4 - r.Intn(10)
+			case 2:
+				sz = S - r.Intn(12)
+			case 3:
+				sz = 2*S - r.Intn(16)
+			case 4:
+				sz = 1 + r.Intn(3*S)
+			case 5:
+				sz = S - 8 + r.Intn(8)
+			default:
+				sz = 1 + r.Intn(300)
+			}
+			if sz < 1 {
+				sz = 1
+			}
+			sizes = append(sizes, sz)
+		}
+		line, fails := pqrun.LayoutCase(r, P, sizes)
+		rep.Programs++
+		rep.Steps += len(sizes)
+		rep.Distinct++
+		if tw != nil && line != "" {
+			fmt.Fprintln(tw, line)
+		}
+		for k, f := range fails {
+			if k >= 2 {
+				break
+			}
+			rep.Failures = append(rep.Failures, FailureRec{Prop: f.Prop, Kind: f.Kind, Msg: f.Msg, Seed: *fSeed, Program: i})
+		}
+		if len(rep.Samples) < 2 {
+			rep.Samples = append(rep.Samples, line)
+		}
+	}
+}
